@@ -149,6 +149,7 @@ def parseRoute (s : String) : Option Route :=
 
 def showHook : Hook → String
   | .finalizeFrom => "finalize" | .finalizeNone => "finalize-none" | .reduce => "reduce" | .setstate => "setstate"
+  | .deepcopy => "deepcopy"
 
 def b01 (b : Bool) : String := if b then "1" else "0"
 
